@@ -134,7 +134,7 @@ func (m *emodel) write(u wunit, data [][]byte) {
 		// parameter detection happens first, on whatever the unit carries
 		carries := false
 		switch t.Kind {
-		case "h264", "h264b", "h265", "h265b":
+		case "h264", "h264b", "h264k", "h265", "h265b":
 			carries = u.Params != 0
 		case "av1", "vp9":
 			carries = u.RA // sequence header / key-frame header always describe the parameters
